@@ -19,12 +19,6 @@ def nlPositions : Nat → Str → List Nat
 /-- where `WrapString(t, 68)` breaks a text -/
 def breaks (t : Str) : List Nat := nlPositions 0 (wrapString t 68)
 
-def molOf (s : Str) : GbLayout.MolType :=
-  if s = GbLayout.MolType.mrna.text then .mrna
-  else if s = GbLayout.MolType.trna.text then .trna
-  else if s = GbLayout.MolType.rrna.text then .rrna
-  else .dna
-
 def toRRef (r : Reference) : GbLayout.RRef :=
   { range := r.range, authors := r.authors, title := r.title, journal := r.journal, pubmed := r.pubMed, remark := r.remark }
 
@@ -35,7 +29,7 @@ def toRFeature (f : Feature) : GbLayout.RFeature :=
 def toRec (x : Sequence) : GbLayout.GbRec :=
   let m := x.metadata
   { locus := { name := m.locus.name, len := m.locus.sequenceLength, mol := m.locus.moleculeType,
-               topo := if m.locus.circular then some .circular else some .linear,
+               topo := if m.locus.circular then some .circular else if m.locus.linear then some .linear else none,
                division := m.locus.genbankDivision, date := m.locus.modificationDate },
     definition := m.definition, accession := m.accession, version := m.version, keywords := m.keywords,
     source := m.source, organism := m.organism,
@@ -45,40 +39,46 @@ def toRec (x : Sequence) : GbLayout.GbRec :=
     seq := x.sequence }
 
 def refLayout (r : Reference) : GbLayout.RefLayout :=
-  { range := [], authors := breaks r.authors, title := breaks r.title, journal := breaks r.journal,
+  { range := [], trailGap := true, authors := breaks r.authors, title := breaks r.title, journal := breaks r.journal,
     pubmed := breaks r.pubMed, remark := breaks r.remark }
 
-/-- the layout choices `genbank.Build` makes: five blanks between the LOCUS fields, every block
-broken where `WrapString(_, 68)` breaks it, locations and qualifier values on one line, 6 × 10 -/
+/-- `Build` writes five blanks before every LOCUS field and nothing for an empty field, so the gap
+before a present field is `5 · (1 + number of empty fields directly before it)`; `absent` = that
+number.  The C01 layout wants `pad + 1` blanks. -/
+def padAfter (absent : Nat) : Nat := 5 * (absent + 1) - 1
+
+/-- the layout choices `genbank.Build` makes: five blanks before every LOCUS field (an empty field
+is written as nothing, so the gaps add up and end up as trailing blanks), every block broken where
+`WrapString(_, 68)` breaks it, locations and qualifier values on one line, 6 × 10 -/
 def polyLayout (x : Sequence) : GbLayout.RecLayout :=
   let m := x.metadata
-  { pads := [6, 4, 4, 4, 4, 4],
+  let l := m.locus
+  let e (t : Str) : Nat := if t = [] then 1 else 0
+  let shape : Str := if l.circular then "circular".toList else if l.linear then "linear".toList else []
+  let aMol := e l.moleculeType
+  let aShape := if shape = [] then aMol + 1 else 0
+  let aDiv := if l.genbankDivision = [] then aShape + 1 else 0
+  let aDate := if l.modificationDate = [] then aDiv + 1 else 0
+  { pads := [6, if l.sequenceLength = [] then 5 else 4, 4, padAfter aMol, padAfter aShape, padAfter aDiv],
+    locusTrail := 5 * aDate,
     definition := breaks m.definition, accession := breaks m.accession, version := breaks m.version,
     keywords := breaks m.keywords, source := breaks m.source, organism := breaks m.organism,
     refs := m.references.map refLayout,
     extras := (sortedEntries m.other).map fun kv => breaks kv.2,
     feats := [], originTrail := false, blockLen := 9, perLine := 5 }
 
-/-- the REFERENCE line has a range and is not wrapped -/
+/-- the REFERENCE line (number, two blanks, range — the range may be empty) is not wrapped -/
 def refsFit : Nat → List Reference → Bool
   | _, [] => true
-  | i, r :: rs => r.range != [] && decide ((Location.itoa (i + 1)).length + 2 + r.range.length ≤ 68) && refsFit (i + 1) rs
+  | i, r :: rs => decide ((Location.itoa (i + 1)).length + 2 + r.range.length ≤ 68) && refsFit (i + 1) rs
 
-/-- the part of the round-trip domain covered by the theorem `parse_build_partial`: records that
-C01's abstract record type can express (one of its four molecule types, a topology, a division, a
-date, the length field equal to the number of bases, …: `GbLayout.wf`), whose REFERENCE lines have
-a range and fit on one line -/
+/-- the part of the round-trip domain covered by the theorem `parse_build_partial`: `wfSeq x`, the
+record as C01's abstract record type expresses it is in C01's domain (`GbLayout.wf (toRec x)`: any of
+poly's molecule types or none, any or no topology / division / length / date — a date with a real
+month —, extra keywords and qualifier keys as C01 admits them, quotation marks only inside values,
+location texts of one INSDC-shaped expression, fewer than 10^8 bases), and no REFERENCE line is wrapped -/
 def covered (x : Sequence) : Bool :=
-  let l := x.metadata.locus
-  wfSeq x
-    && (molOf l.moleculeType).text == l.moleculeType
-    && l.circular != l.linear
-    && GbLayout.divisionCodes.getD (GbLayout.divisionCodes.idxOf l.genbankDivision) [] == l.genbankDivision
-    && l.sequenceLength == Str.ofNat x.sequence.length
-    -- (w-gbparse, C01 widening: C01's `wfLocus` now admits absent fields; the two conjuncts keep `covered` what it was)
-    && l.genbankDivision != [] && l.modificationDate != []
-    && refsFit 0 x.metadata.references
-    && GbLayout.wf (toRec x)
+  wfSeq x && refsFit 0 x.metadata.references && GbLayout.wf (toRec x)
 
 def refApprox (a : Reference) (b : Genbank.Reference) : Bool :=
   a.index == b.index && a.authors == b.authors && a.title == b.title && a.journal == b.journal
